@@ -116,6 +116,33 @@ func facetRef(args []string) error {
 		case 0:
 			rs := genRouteSpec(rng.Fork(), base+"r", false, true)
 			rs.Gen.Client = false
+			// always present: array parameters whose ITEMS are given by reference to a primitive component
+			// (element-wise parsing goes through another path of the generator than inline items do)
+			{
+				var doc map[string]any
+				json.Unmarshal(rs.Gen.Spec, &doc)
+				comps, _ := doc["components"].(map[string]any)
+				if comps == nil {
+					comps = map[string]any{}
+					doc["components"] = comps
+				}
+				schemas, _ := comps["schemas"].(map[string]any)
+				if schemas == nil {
+					schemas = map[string]any{}
+					comps["schemas"] = schemas
+				}
+				schemas["ItemStr"] = map[string]any{"type": "string"}
+				schemas["ItemInt"] = map[string]any{"type": "integer"}
+				t0 := rs.Templates[0]
+				if pi, ok := doc["paths"].(map[string]any)[t0].(map[string]any); ok {
+					ps, _ := pi["parameters"].([]any)
+					ps = append(ps, map[string]any{"in": "query", "name": "tagz", "schema": map[string]any{"type": "array", "items": map[string]any{"$ref": "#/components/schemas/ItemStr"}}},
+						map[string]any{"in": "header", "name": "X-Numz", "schema": map[string]any{"type": "array", "items": map[string]any{"$ref": "#/components/schemas/ItemInt"}}})
+					pi["parameters"] = ps
+					rs.Params[t0] = append(rs.Params[t0], paramDef{Loc: "query", Name: "tagz", Tag: "str", Array: true}, paramDef{Loc: "header", Name: "X-Numz", Tag: "int", Array: true})
+					rs.Gen.Spec, _ = json.Marshal(doc)
+				}
+			}
 			g2 := rs.Gen
 			g2.Name = base + "i"
 			g2.Spec = inlinedSpec(rs.Gen.Spec, false)
